@@ -246,7 +246,7 @@ CLAIMED = {
              "the real descriptor and the specification checks the stored bytes are the exact scaled integer. TLC "
              "executes the emitted bytecode on the eBPF machine and judges the destination bytes / the markers; the "
              "result is read back through the real Python descriptor and must be the float nearest to raw/100000. Later widened: hash-map variable operands (incl. fixed-point ones), statements inside a temporary's block, plain assignments of every constant (conversion only), values beyond 32 bits in every vector; the precondition scales each operand only as far as its own operation needs. Also integer destinations declared with a byte order and / or narrower than 8 bytes (the precondition then follows the destination's width). Also operands read as raw memory through the map's base register (`self.mx[...]`, `self.mq[...]`). Also hash-map variables (fixed-point and integer) as destinations.",
-        note="Depth-1 statements and sampled input values (boundary and fixed-seed), 8-byte operands only. Outside "
+        note="Depth-1 statements and sampled input values (boundary and fixed-seed), 8-byte operands (destinations of 2, 4 and 8 bytes, array-map and hash-map). Outside "
              "the precondition a case is skipped, never judged. One recorded known finding (F1: division emitted "
              "unsigned) is matched by a flag the spec computes by stepping the case's own bytecode: a DIV or MOD "
              "executes on a negative operand; a statement that has that AND another defect is attributed to it. The "
